@@ -27,6 +27,8 @@ for d in sorted(glob.glob(os.path.join(VERIF, "seeded", "*"))):
         checks.append(f"{p}: {'CAUGHT' if v.get('detected') else 'missed'}" + (f" ({', '.join(v.get('keys', [])[:2])})" if v.get("keys") else ""))
         if v.get("note"):
             notes.append(v["note"])
+    if det.get("notes"):
+        notes.append(det["notes"])
     def short(s, n):
         s = re.sub(r"\s+", " ", str(s))
         return s if len(s) <= n else s[: n - 3] + "..."
